@@ -56,6 +56,31 @@ class Real:
             C.RetrySender.__init__ = rs
             C.FragmentSender.__init__ = fs
             C.RetrySender._verif_wrapped = True
+        # what the server side computed while it handled a client hello (observed, for the oracle lines): the derived key, the
+        # signed server hello and the token - also when the reply is then NOT sent (hello shorter than the reply)
+        if not getattr(C.HandshakeServerHelloMessage, "_verif_cap", False):
+            from mpgameserver.context import ServerContext
+            d0, e0, g0 = C.HandshakeServerHelloMessage.dumpb, crypto.ecdh_server, ServerContext.get_token
+            cap = Real.capture = {"sh": None, "key": None, "tok": None}
+
+            def dumpb(self, *a, **k):
+                r = d0(self, *a, **k)
+                cap["sh"] = r
+                return r
+
+            def ecdh_server(*a, **k):
+                r = e0(*a, **k)
+                cap["key"] = r[1]
+                return r
+
+            def get_token(self, *a, **k):
+                r = g0(self, *a, **k)
+                cap["tok"] = r
+                return r
+            C.HandshakeServerHelloMessage.dumpb = dumpb
+            crypto.ecdh_server = ecdh_server
+            ServerContext.get_token = get_token
+            C.HandshakeServerHelloMessage._verif_cap = True
         # one clock for everything connection.py reads
         C.time = type("VTime", (), {"time": staticmethod(lambda: real.now / TICK),
                                     "monotonic": staticmethod(lambda: real.now / TICK)})
@@ -437,6 +462,7 @@ class CaseRun:
             dropped0 = conn.stats.dropped
             role = getattr(conn, "_v_role", "base")
             conn._v_hs_called = None
+            Real.capture.update(sh=None, key=None, tok=None)
             conn._v_hs_exc = None
             nout0 = len(conn.outgoing_messages)
             key_before = conn.session_key_bytes
@@ -462,8 +488,9 @@ class CaseRun:
                 elif called == "_recvClientHello":
                     if exc is not None:
                         orc = " orc=ch:err"
-                    elif len(conn.outgoing_messages) > nout0 and conn.outgoing_messages[-1].type == C.PacketType.SERVER_HELLO:
-                        orc = " orc=ch:ok:%s:%s tok=%d" % (conn.session_key_bytes.hex(), conn.outgoing_messages[-1].payload.hex(), conn.token)
+                    elif Real.capture["sh"] is not None:
+                        # the reply was computed (sent or - hello too short - withheld: the model decides that itself)
+                        orc = " orc=ch:ok:%s:%s tok=%d" % (Real.capture["key"].hex(), Real.capture["sh"].hex(), Real.capture["tok"])
                     else:
                         orc = " orc=ch:ver:2"
                 elif called == "_recvChallengeResponse":
@@ -952,7 +979,7 @@ def gen_handshake(real, rng, cid, script=None):
 
     try:
         emit("now %d" % t)
-        emit("mtu %d" % rng.choice([1500, 1500, 512]))
+        emit("mtu %d" % rng.choice([1500, 1500, 512, 420]))
         emit("new c csc")
         emit("new s scc")
         pinned = {"tofu": "none", "pinned-other": "02"}.get(script, "01")
@@ -1043,8 +1070,10 @@ def gen_handshake(real, rng, cid, script=None):
                 except Exception:
                     gen = None
                 payload = resigned_hello(real, gen, real.server_ctxt("other").server_root_key)
-                t += 3
-                emit("recv c t=%d d=!2,1,0,0,%d,1:%s:none" % (t, t // 1024, (b"\x00\x01" + payload).hex()))
+                # the forgery arrives once, or several times in fresh datagrams (a rejected attempt must not weaken the next check)
+                for j in range(rng.choice([1, 2, 3])):
+                    t += 3
+                    emit("recv c t=%d d=!2,%d,0,0,%d,1:%s:none" % (t, j + 1, t // 1024, (struct.pack(">H", j + 1) + payload).hex()))
             elif script in ("other-session", "foreign-root") and ks2 is not None:
                 deliver("c", "s2", ks2)
             elif script == "trunc-ext":
